@@ -154,13 +154,7 @@ func isLowWaterField(c *core.Ctx, field string) bool {
 	res := core.Memo(c, "lowwaterfields", func() map[string]bool {
 		out := map[string]bool{}
 		for _, fn := range c.P.Funcs("internal/cache") {
-			deletes := false
-			an.Calls(fn, func(call ssa.CallInstruction) {
-				if bi, ok := call.Common().Value.(*ssa.Builtin); ok && bi.Name() == "delete" {
-					deletes = true
-				}
-			})
-			if !deletes {
+			if len(cacheDeleteSites(fn, 0)) == 0 {
 				continue
 			}
 			for _, b := range fn.Blocks {
